@@ -8,7 +8,7 @@ cd "$(dirname "$0")/.."
 # the list of checks each seed was evaluated with)
 [ -d /tmp/final ] || python3 - <<'PY'
 import json, glob, os, shutil
-L = {'A': ('w1', 'A'), 'B': ('w1', 'B'), 'C': ('w2', 'A'), 'D': ('w2', 'B'), 'E': ('w3', 'A'), 'F': ('w3', 'B'), 'G': ('w4', 'A'), 'H': ('w4', 'B'), 'I': ('w5', 'A'), 'J': ('w5', 'B')}
+L = {'A': ('w1', 'A'), 'B': ('w1', 'B'), 'C': ('w2', 'A'), 'D': ('w2', 'B'), 'E': ('w3', 'A'), 'F': ('w3', 'B'), 'G': ('w4', 'A'), 'H': ('w4', 'B'), 'I': ('w5', 'A'), 'J': ('w5', 'B'), 'K': ('w6', 'A'), 'L': ('w6', 'B')}
 for d in sorted(glob.glob('seeded/C??-?')):
     pid, letter = os.path.basename(d).split('-')
     tag, v = L[letter]
